@@ -154,6 +154,16 @@ def run(chk, model_ok):
             for f in range(4):
                 cases.append(('agg', [a], f))
 
+    # fixed: one value of every group with one value of every group (both orders) through min / max / sum / avg: the
+    # aggregates on mixed types do not depend on the luck of the seeded sequences
+    GROUPS = ('n', 's', 'b', 'd', 'dt', 't', 'ym', 'dtd', 'o', 'hex', 'b64')
+    first = {g: next(t for t in TV if t[2] == g) for g in GROUPS if any(t[2] == g for t in TV)}
+    for g1, a in first.items():
+        for g2, b in first.items():
+            if g1 != g2:
+                for f in range(4):
+                    cases.append(('agg', [a, b], f))
+
     def lit(s):
         return '[' + '; '.join(t[1] for t in s) + ']'
     terms = []
